@@ -1,3 +1,4 @@
+use std::collections::HashSet;
 use std::fs::{File, hard_link, read_dir, remove_file, rename};
 use std::ops::Bound;
 use std::path::PathBuf;
@@ -352,6 +353,20 @@ impl KeyValueStore {
     }
 
     pub fn write(&self, mut batch: WriteBatch) -> Result<(), SError> {
+        // NOTE:  Every entry of a batch carries the batch's sequence number, and neither the
+        // memtable nor log replay accepts the same (key, sequence number) twice.  When a batch
+        // names a key more than once, the last operation on that key is the one that counts.
+        if batch.entries.len() > 1 {
+            let mut seen = HashSet::with_capacity(batch.entries.len());
+            let mut last_per_key = Vec::with_capacity(batch.entries.len());
+            for entry in batch.entries.drain(..).rev() {
+                if seen.insert(entry.key.clone()) {
+                    last_per_key.push(entry);
+                }
+            }
+            last_per_key.reverse();
+            batch.entries = last_per_key;
+        }
         let (mut wait_guard, memtable, log, seq_no) = {
             let mut state = self.state.lock().unwrap();
             let wait_guard = self.wait_list.link(());
